@@ -1977,6 +1977,34 @@ mod tests {
     }
 }
 
+#[cfg(feature = "verif-hooks")]
+impl<R> Base64Decoder<R> {
+    /// verif hook: construct decoder in an arbitrary representation state
+    pub fn verif_from_parts(
+        read: R,
+        buffer: [u8; 64],
+        buffer_offset: usize,
+        buffer_size: usize,
+    ) -> Self {
+        Self {
+            read,
+            buffer,
+            buffer_offset,
+            buffer_size,
+        }
+    }
+
+    /// verif hook: expose representation `(reader, buffer, buffer_offset, buffer_size)`
+    pub fn verif_parts(&self) -> (&R, &[u8; 64], usize, usize) {
+        (
+            &self.read,
+            &self.buffer,
+            self.buffer_offset,
+            self.buffer_size,
+        )
+    }
+}
+
 /// Verification hooks: access to private kernels, matchers and automata tables
 #[cfg(feature = "verif-hooks")]
 pub mod verif_hooks {
